@@ -277,6 +277,8 @@ class World:
             return g2p.G1_to_pubkey(ob.add(base, T if cls.endswith("plus") else ob.neg(T)))
         if cls in self.LENGTH_VARIANTS:
             return rng.choice(self.length_variants(cls))
+        if cls == "wide_view":
+            return memoryview(bytes(48) + bytes(pk)).cast("H")
         if cls == "cflag0":
             return bytes([pk[0] & 0x7f]) + pk[1:]
         if cls == "inf_badflags":
@@ -301,6 +303,8 @@ class World:
         rng, p = self.rng, self.p
         ob, g2p = _W["ob"], _W["g2p"]
         sg = bytes(self.sig_bytes(desc))
+        if cls == "wide_view":
+            return memoryview(b"\xff" * 48 + sg[:48] + bytes(48) + sg[48:]).cast("H")     # each half in the low bytes of its slice
         if cls == "short":
             return rng.choice([b"", sg[:95], sg[1:], sg[:48]])
         if cls == "long_prefix":
@@ -347,10 +351,16 @@ class World:
                     return g2p.G2_to_signature(P)
 
     def key_bytes(self, pk):
-        return bytes(self.pk(pk["key"])) if pk["cls"] == "valid" else bytes(self.bad_key(pk["cls"], pk["key"]))
+        if pk["cls"] == "valid":
+            return bytes(self.pk(pk["key"]))
+        v = self.bad_key(pk["cls"], pk["key"])
+        return v if isinstance(v, memoryview) else bytes(v)
 
     def sigval_bytes(self, sg):
-        return bytes(self.sig_bytes(sg["desc"])) if sg["cls"] == "valid" else bytes(self.bad_sig(sg["cls"], sg["desc"]))
+        if sg["cls"] == "valid":
+            return bytes(self.sig_bytes(sg["desc"]))
+        v = self.bad_sig(sg["cls"], sg["desc"])
+        return v if isinstance(v, memoryview) else bytes(v)
 
 
 def _run_chain(job):
@@ -408,7 +418,7 @@ def _run_scenario(job):
     row["pair"] = list(log)
     row["steps"] = list(_W["steps"])
     row["stepsok"] = 1 if _W["pstate"]["wrapped"] else 0
-    row["inputs"] = {"pks": [b.hex() for b in pks], "msgs": [m.hex()[:64] for m in ms], "sig": sig.hex()}
+    row["inputs"] = {"pks": [bytes(b).hex() for b in pks], "msgs": [m.hex()[:64] for m in ms], "sig": bytes(sig).hex()}
     # the same call once more in the same interpreter (malformed inputs always, the others one time in four): a
     # verdict must not depend on the input having been presented before
     row["again"] = row["got"]
@@ -816,7 +826,8 @@ def run(ctx: Ctx, focus):
             nb += 1
             continue
         i = row["idx"]
-        if i in expect and (row["raised"] or bool(row["got"]) != bool(expect[i])):
+        wide = row["sc"]["sig"].get("cls") == "wide_view" or any(p.get("cls") == "wide_view" for p in row["sc"]["pks"])
+        if i in expect and ((row["raised"] and not wide) or bool(row["got"]) != bool(expect[i])):
             sc = row["sc"]
             ctx.violation(f"BlsReplay:{sc['entry']}:{sc['suite']}:{sc['note']}",
                           f"{sc['entry']} ({sc['suite']}, scenario '{sc['note']}', {len(sc['pks'])} key(s)) "
